@@ -16,7 +16,7 @@ CHECKS = {
    "over-reads that stay inside a mapped page and do not change the result are unobservable (harmless by the property's wording); SSE covered by C13",
    "bounded-exhaustive enumeration of (input, memory placement) pairs with a differential oracle and guard pages"),
  "C06": ("E2", "model_checking",
-   "every history of <= 3/4 operations over ~30 instances (encode family on both sides of the pool limit, ast MarshalJSON/Raw, the caller overwriting every []byte it was given, decode followed by overwriting the input) with sync.Pool replaced by a deterministic maximal-reuse pool: every earlier result keeps its snapshot, outputs equal their fresh-state outputs; EncodeInto x {10 values, every (type, value) case of the encoder grammar} x EVERY capacity up to 8 bytes more than needed x prefixes x options with canaries",
+   "every history of <= 3/4 operations over ~33 instances (encode family on both sides of the pool limit, validations that fail inside nested containers, ast MarshalJSON/Raw, the caller overwriting every []byte it was given, decode followed by overwriting the input) with sync.Pool replaced by a deterministic maximal-reuse pool: every earlier result keeps its snapshot, outputs equal their fresh-state outputs; EncodeInto x {10 values, every (type, value) case of the encoder grammar} x EVERY capacity up to 8 bytes more than needed x prefixes x options with canaries",
    "the deterministic pool is the maximal-reuse schedule; strings are immutable for the caller",
    "explicit-state search over operation histories with an invariant checked after every transition + exhaustive capacity sweep"),
  "C07": ("E1", "exploration",
@@ -24,15 +24,15 @@ CHECKS = {
    "a 10-minute watchdog stands in for 'hang'; the one-byte-per-Read stream grid stops at depth 65536 (quadratic re-scan, not a hang)",
    "bounded-exhaustive input enumeration in crash-isolated processes; oracle = survival + usable error values"),
  "C08": ("E3", "model_checking",
-   "12 scenarios of 2-3 concurrent calls (first use through one or two caches, Pretouch vs use, iterator / stack / state-machine pools, the real ProgramCache with fabricated colliding keys around a rehash) explored for every interleaving with <= 1-3 preemptions at every lock/atomic/pool operation and every statement of the cache, pool and module-registration code; results (incl. what a traceback inside the callback sees) must match a sequential order; -race companion pass",
+   "13 scenarios of 2-3 concurrent calls (first use through one or two caches, Pretouch vs use, iterator / stack / state-machine / compaction-buffer pools, the real ProgramCache with fabricated colliding keys around a rehash) explored for every interleaving with <= 1-3 preemptions at every lock/atomic/pool operation and every statement of the cache, pool and module-registration code; results (incl. what a traceback inside the callback sees) must match a sequential order; -race companion pass",
    "shimmed sync/atomic/Pool semantics; compilation is thread-local and not instrumented except for scheduling points around assemble/resolve/release (its instruction pool is deterministic without points of its own)",
    "stateless model checking of the implementation under a controlled scheduler with iterative preemption bounding"),
  "C10": ("E4", "fault_enumeration",
-   "25 codec programs x EVERY dynamic opcode boundary (sonic's own debug seam re-pointed to the harness) x {GC, stack copy, stack copy + shrink, traceback, Gosched+GC}, one event per run, the event at every boundary, the event inside every user callback (on entry and after its last use of the receiver), and (thorough) all pairs of boundaries for small programs; background GC off, clobberfree=1; result must equal the undisturbed run and the process must survive",
+   "25 codec programs x EVERY dynamic opcode boundary (sonic's own debug seam re-pointed to the harness) x {GC, stack copy, stack copy + shrink, traceback, Gosched+GC}, one event per run, the event at every boundary, the event inside every user callback (on entry and after its last use of the receiver), and (thorough) all pairs of boundaries for small programs; background GC off, clobberfree=1; result must equal the undisturbed run and the process must survive; free-running companion pass: 128 objects decoded into a second time inside a mark phase with their previous pointer fields held only by an already scanned stack (write barriers of generated code)",
    "boundaries in front of a `save` opcode are not runtime intervention points (no call-out there in production; sonic's own seam skips them); events inside runtime helpers mid-opcode cannot be positioned",
    "exhaustive enumeration of (execution point, runtime event) injections into one execution"),
  "C01": ("E1", "exploration",
-   "documents (all token strings <= 4/5 tokens, all JSON trees <= 4/5 nodes in 2 styles, truncations and single-token mutants, binding-rule documents) x 50 destination types x {ConfigStd, ConfigDefault} x {-, UseNumber} + UseInt64: error iff encoding/json errors, else equal canonical dumps",
+   "strata first (invalid-UTF-8 volume around the 4096-position rounds of the repair pass, array arity around fixed-size destinations with trailing commas, 11 integer map-key widths x 39 spellings, wide structs naming each field), then documents (all token strings <= 4/5 tokens, all JSON trees <= 4/5 nodes in 2 styles, truncations and single-token mutants, binding-rule documents) x 50 destination types x {ConfigStd, ConfigDefault} x {-, UseNumber} + UseInt64: error iff encoding/json errors, else equal canonical dumps",
    "encoding/json is the reference; UseInt64 expectation derived from the reference's UseNumber result by the documented rule",
    "bounded-exhaustive enumeration of (input, program=destination type, configuration) against a reference implementation"),
  "C11": ("E5", "exploration",
@@ -40,7 +40,7 @@ CHECKS = {
    "64-bit digests (collision probability ~1e-12 per run); errors compared as a class",
    "exhaustive enumeration of a bounded input x type x option space replayed per start-up configuration, differential oracle"),
  "C12": ("E5", "exploration",
-   "the C04 suite (boundary values of ~250 types x all 512 encoder option sets, cyclic/deep values) (long strings also through a fresh 16-byte buffer) and the C03 suite enumerated under the JIT back end and under SONIC_ENCODER_USE_VM=1: byte-identical output or both errors",
+   "suite hist (every two-step history over C09's operation alphabet incl. Pretouch), the C04 suite (boundary values of ~250 types x all 512 encoder option sets, cyclic/deep/depth-limit values, every case also into a fresh 16-byte buffer) (long strings also through a fresh 16-byte buffer) and the C03 suite enumerated under the JIT back end and under SONIC_ENCODER_USE_VM=1: byte-identical output or both errors",
    "64-bit digests; outputs of maps without SortMapKeys compared as byte multisets (Go map order is random)",
    "exhaustive enumeration of a bounded value x option space replayed per start-up configuration, differential oracle"),
  "C13": ("E5", "exploration",
@@ -60,23 +60,23 @@ CHECKS = {
    "strconv.ParseFloat / encoding/json are the references, arbitrated by exact math/big.Rat rounding",
    "bounded-exhaustive enumeration of literals and of the complete float32 value space against reference implementations"),
  "C02": ("E1", "exploration",
-   "every token string <= n tokens, every length stratum 0..136, every single-token mutant / byte truncation and every single-byte substitution/insertion (all 256 values) of small documents, through 17 consuming entry points, against a two-sided reference bracket (json.Valid above, json.Valid with string contents masked below)",
+   "every token string <= n tokens, every length stratum 0..136, every single-token mutant / byte truncation and every single-byte substitution/insertion (all 256 values) of small documents, through 17 consuming entry points, plus the volume and arity strata, against a two-sided reference bracket (json.Valid above, json.Valid with string contents masked below)",
    "trusts encoding/json.Valid and a 30-line string-masking scanner; runs the shipped pre-assembled native routines (AVX2 here, SSE through C13)",
    "bounded-exhaustive input enumeration with a two-sided reference oracle"),
  "C03": ("E1", "exploration",
-   "every type of a reflect-built type grammar (depth 2 quick / 3 thorough) x every value of a boundary value set, by value and through a pointer: ConfigStd.Marshal vs encoding/json.Marshal (errors coincide, token streams equal, numbers byte-identical, strings by denotation); component: the real map-key sorter driven with chosen input orders (6 key families x prefix 0..24 x 0..48 keys x all permutations <= 7/9 keys and structured orders above)",
+   "every type of a reflect-built type grammar (depth 2 quick / 3 thorough) x every value of a boundary value set, by value and through a pointer: ConfigStd.Marshal vs encoding/json.Marshal (errors coincide, token streams equal, numbers byte-identical, strings by denotation); long markup / control-character strings and integer-keyed maps past the sorter thresholds, each also into a fresh 16-byte buffer; component: the real map-key sorter driven with chosen input orders in both key layouts (6 key families x prefix 0..24 x 0..48 keys x all permutations <= 7/9 keys and structured orders above)",
    "encoding/json is the reference; comparison tokenizer is encoding/json's Decoder.Token",
    "bounded-exhaustive enumeration of (program=type, input=value) pairs against a reference implementation"),
  "C04": ("E1", "exploration",
-   "boundary values of ~250 types x ALL 512 encoder option sets: output well-formed, unrepresentable values are errors, plain data round-trips through sonic and encoding/json modulo the documented option effects; cyclic and 5000-deep values",
+   "boundary values of ~250 types x ALL 512 encoder option sets: output well-formed, unrepresentable values are errors, plain data round-trips through sonic and encoding/json modulo the documented option effects; cyclic and 5000-deep values, values at the depth limit +-1, long strings also into a fresh 16-byte buffer, integer-keyed maps past the sorter thresholds",
    "encoding/json decides representability; round trip asserted only for types that are plain data by construction",
    "exhaustive enumeration of the option-set space crossed with a bounded value space"),
  "C09": ("E2", "model_checking",
-   "every history of <= 2 (quick) / 3 (thorough) arbitrary operations followed by an observing one over ~60 operation instances on 8 colliding types, by iterative deepening on the prefix length,, replayed on the real code from reset caches, differential against the empty history; the real ProgramCache driven with fabricated keys over every insertion order of a colliding alphabet at each rehash boundary and 9000 sequential insertions; 2200/4400 distinct types end to end",
+   "every history of <= 2 (quick) / 3 (thorough) arbitrary operations followed by an observing one over ~66 operation instances on 9 colliding types (incl. a reference cycle across the inline depth, Pretouch with compile options), by iterative deepening on the prefix length with the prefix state snapshotted (immutable cache maps) in front of every observing operation, findings identified by the smallest culprit sub-history,, replayed on the real code from reset caches, differential against the empty history; the real ProgramCache driven with fabricated keys over every insertion order of a colliding alphabet at each rehash boundary and 9000 sequential insertions; 2200/4400 distinct types end to end",
    "loaded machine code cannot be unloaded, so the loader's module list is the one piece of history a reset does not erase",
    "explicit-state search over operation histories on the real implementation with a differential oracle"),
  "C15": ("E2", "model_checking",
-   "breadth-first search over all operation histories up to depth 3 (quick) / 4 (thorough) over ~120 operation instances x 10 initial documents on the real ast.Node, states merged on (model state, hidden representation dump), every result and every state's full read-out compared with a 150-line ordered-tree model; sort sweep: SortKeys on 0..48-pair objects in every document order <= 6/8 keys and structured orders above x 5 variants against a stable sort of the live pairs",
+   "breadth-first search over all operation histories up to depth 3 (quick) / 4 (thorough) over ~120 operation instances x 11 initial documents (incl. a 20-pair object with a late duplicate) on the real ast.Node, states merged on (model state, hidden representation dump), every result and every state's full read-out compared with a 150-line ordered-tree model; sort sweep: SortKeys on 0..48-pair objects in every document order <= 6/8 keys and structured orders above x 5 variants against a stable sort of the live pairs",
    "the model encodes the documented semantics; undocumented corners (Move out of range, SortKeys on non-objects) are pruned, not guessed",
    "explicit-state search over operation histories against a reference model, with state hashing on hidden representation"),
  "C16": ("E3", "model_checking",
@@ -84,11 +84,11 @@ CHECKS = {
    "sync/atomic semantics are modelled by a shim; sub-statement memory-model effects are only covered by the -race companion pass",
    "stateless model checking of the implementation under a controlled scheduler with iterative preemption bounding"),
  "C18": ("E1", "exploration",
-   "ALL 2^16 Config values x a probe set judged as neighbour pairs per switch (exact relation per documented effect), and all 512 encoder / 192 legal decoder option sets through 41 alternative entry points compared with the frozen Config",
+   "ALL 2^16 Config values x a probe set judged as neighbour pairs per switch (exact relation per documented effect), and all 512 encoder / 192 legal decoder option sets through 41 alternative entry points compared with the frozen Config (stream decoders decode a second, scrambled document before the first result is observed)",
    "the documented effect of each switch is taken from api.go comments and the property text; encoding/json helpers (HTMLEscape, Compact) define the relations",
    "exhaustive enumeration of the configuration space with relational (metamorphic) oracles"),
  "C20": ("E1", "exploration",
-   "all byte strings <= 5 (quick) / 6 (thorough) over a 14-byte alphabet, ~90 payloads at every offset of every length 0..136, all concatenations of <= 4/5 escape tokens, dense escape runs, through 35 entry points incl. every destination capacity for the restartable native routines; oracles: unquote(quote(s))==s, encoding/json, unicode/utf8, json.HTMLEscape",
+   "all byte strings <= 5 (quick) / 6 (thorough) over a 14-byte alphabet, ~90 payloads at every offset of every length 0..136, all concatenations of <= 4/5 escape tokens, dense escape runs, through 35 entry points incl. every destination capacity for the restartable native routines and string encoding into a fresh 16-byte buffer; oracles: unquote(quote(s))==s, encoding/json, unicode/utf8, json.HTMLEscape",
    "a 60-line unquote reference mirroring encoding/json (self-checked against it on every case)",
    "bounded-exhaustive input enumeration (incl. exhaustive output-capacity sweep) against reference implementations"),
 }
